@@ -202,6 +202,7 @@ def run(index, tier="quick", seed=0) -> Result:
                     f"orientation-free, so the edge sum must be too: for clockwise vertices F jumps from +A to about -A next to q=0")
     except NotInFragment as e:
         res.not_in_fragment.append(f"FF-2 parity: {e}")
+    _series_branch(res, index)
     for k, (where, what, func) in sc.conflicts.items():
         if "compute_form_factor_amplitude" in func:
             res.bad("DEG", k, where, what)
@@ -220,3 +221,97 @@ def run(index, tier="quick", seed=0) -> Result:
     report_translation(res, sc, lambda func, path: "compute_form_factor_amplitude" in func or any("compute_form_factor_amplitude" in p_ for p_ in path[:1]),
                        "form factor implementations")
     return res
+
+
+def _series_branch(res, index):
+    """FF-6: where the sphere's amplitude switches to a power series for small |q| R (`np.where(qr < eps, series, closed)`), the
+    series is the Taylor expansion of the closed form it replaces: both are translated to sympy in q, R > 0 (q_sqs = q^2,
+    qr = q R, np.sinc(y) = sin(pi y) / (pi y), self.volume = 4/3 pi R^3) and compared term by term up to the order of the series.
+    No series branch: nothing to decide.  Expressions outside the translated fragment: no verdict."""
+    fn = index.cls("Sphere").lookup("compute_form_factor_amplitude")
+    wheres = [n for n in ast.walk(fn.node) if isinstance(n, ast.Call) and ast.unparse(n.func).split(".")[-1] == "where" and len(n.args) == 3]
+    if not wheres:
+        return
+    try:
+        import sympy as sp
+    except Exception:
+        res.not_in_fragment.append("FF-6: sympy not available")
+        return
+    from ..astutil import single_assignments
+    env = single_assignments(fn.node)
+    q, R = sp.symbols("q R", positive=True)
+
+    class Out(Exception):
+        pass
+
+    def tr(n, depth=0):
+        if depth > 14:
+            raise Out()
+        if isinstance(n, ast.Constant) and isinstance(n.value, (int, float)) and not isinstance(n.value, bool):
+            return sp.nsimplify(n.value)
+        if isinstance(n, ast.Name):
+            if n.id in env:
+                return tr(env[n.id], depth + 1)
+            raise Out()
+        if isinstance(n, ast.Attribute):
+            t_ = ast.unparse(n)
+            if t_ in ("self.radius", "self._radius"):
+                return R
+            if t_ == "self.volume":
+                return sp.Rational(4, 3) * sp.pi * R ** 3
+            if t_ in ("np.pi", "numpy.pi"):
+                return sp.pi
+            raise Out()
+        if isinstance(n, ast.Subscript):
+            return tr(n.value, depth + 1)                 # a mask selects entries, the formula per entry is the same
+        if isinstance(n, ast.UnaryOp) and isinstance(n.op, ast.USub):
+            return -tr(n.operand, depth + 1)
+        if isinstance(n, ast.BinOp):
+            l_, r_ = tr(n.left, depth + 1), tr(n.right, depth + 1)
+            return {ast.Add: lambda: l_ + r_, ast.Sub: lambda: l_ - r_, ast.Mult: lambda: l_ * r_, ast.Div: lambda: l_ / r_,
+                    ast.Pow: lambda: l_ ** r_}.get(type(n.op), lambda: (_ for _ in ()).throw(Out()))()
+        if isinstance(n, ast.Call):
+            f = ast.unparse(n.func).split(".")[-1]
+            if f == "sum" and n.args and "q * q" in ast.unparse(n.args[0]).replace("  ", " "):
+                return q ** 2                               # q_sqs = np.sum(q * q, axis=-1)
+            args = [tr(x, depth + 1) for x in n.args]
+            if f == "sinc" and len(args) == 1:
+                return sp.sin(sp.pi * args[0]) / (sp.pi * args[0])
+            one = {"sin": sp.sin, "cos": sp.cos, "sqrt": sp.sqrt, "exp": sp.exp}
+            if f in one and len(args) == 1:
+                return one[f](args[0])
+            raise Out()
+        raise Out()
+    for w in wheres:
+        cond, a_, b_ = w.args
+        k = "Sphere.compute_form_factor_amplitude:series-branch"
+        try:
+            ea, eb = tr(a_), tr(b_)
+        except Out:
+            res.not_in_fragment.append("FF-6: a branch of np.where is outside the translated fragment")
+            continue
+        except Exception:
+            res.not_in_fragment.append("FF-6: translation failed")
+            continue
+        # which one is the polynomial (series) in q?
+        try:
+            pa, pb = sp.Poly(sp.expand(ea), q) if sp.expand(ea).is_polynomial(q) else None, sp.Poly(sp.expand(eb), q) if sp.expand(eb).is_polynomial(q) else None
+        except Exception:
+            pa = pb = None
+        if (pa is None) == (pb is None):
+            res.not_in_fragment.append("FF-6: no polynomial / closed-form pair recognised in np.where")
+            continue
+        series, closed = (ea, eb) if pa is not None else (eb, ea)
+        deg = (pa or pb).degree()
+        try:
+            tay = sp.series(closed, q, 0, deg + 1).removeO()
+            diff = sp.simplify(sp.expand(tay - series))
+        except Exception:
+            res.not_in_fragment.append("FF-6: Taylor expansion failed")
+            continue
+        if diff == 0:
+            res.ok("FF-6", k, sample={"series": str(sp.expand(series))[:120], "order": int(deg)})
+        else:
+            res.bad("FF-6", k, f"{fn.file}:{w.lineno}", f"Sphere.compute_form_factor_amplitude switches to the series `{str(sp.expand(series))[:90]}` for small |q| R, "
+                    f"but the closed form it replaces expands to `{str(sp.expand(tay))[:90]}`: the amplitude jumps at the threshold and is wrong below it "
+                    f"(difference {str(diff)[:60]})")
